@@ -53,7 +53,7 @@ Print Assumptions schedule_independent.
 (* every operation of the tasks honours its declared footprints *)
 Theorem fs_ops_ok : forall L asg k, layout_ok L = true ->
   Forall (Forall op_ok) (phase1 L asg) /\ Forall (Forall op_ok) (phase2 L asg k).
-Proof. intros L asg k H. split; [apply phase1_ok_from; exact H|apply phase2_ok; exact H]. Qed.
+Proof. exact SchedFSProofs.fs_ops_ok. Qed.
 Print Assumptions fs_ops_ok.
 
 (* process_partition i and j (i <> j), concat_parts N and M (N <> M) are independent *)
